@@ -99,7 +99,8 @@ def run_maybe_init_face(run, funcs, case, tag=''):
         raise Inconclusive('the face rule closure does not capture the cell')
     interp = engine.new_interp(funcs)
     st = State()
-    pre = [idx >= 0, j >= 0, nmask > idx, nmask > j]
+    nn_ = [to_z3(x) for x in n.items]
+    pre = [idx >= 0, j >= 0, nmask > idx, nmask > j, nn_[0] * nn_[0] + nn_[1] * nn_[1] + nn_[2] * nn_[2] > 0]     # plane normals are non-zero
     if not case.shift_some:
         pre.append(idx != j)        # an unshifted plane separates two different cells; a shifted one may belong to an image of the cell itself
     st.pc.extend(pre)
